@@ -820,7 +820,15 @@ impl<'a> crate::ranger::Store<SignedEntry> for StoreInstance<'a> {
             // insert into latest table
             let key = (&e.id().namespace().to_bytes(), &e.id().author().to_bytes());
             let value = (e.timestamp(), e.id().key());
-            tables.latest_per_author.insert(key, value)?;
+            // the head is the newest entry of the author: an older entry arriving later (at
+            // another key) must not move it backwards
+            let is_newest = match tables.latest_per_author.get(key)? {
+                Some(existing) => e.timestamp() >= existing.value().0,
+                None => true,
+            };
+            if is_newest {
+                tables.latest_per_author.insert(key, value)?;
+            }
             Ok(())
         })
     }
